@@ -8,6 +8,8 @@ CLAIMED = {
          "payload codecs and converters are abstract (assumed inverse pairs: D_ok/D_val/S, K_*); composition of per-call contracts over a call history is a written induction; JSON raw / file-based / compressor framings are not under contract (bounded driver only, thorough tier)"),
  "C02": ("§4 C02", "Exceptional postconditions of the same functions: a payload error consumes exactly one frame (remaining_data == T[i+|sep|:]); LimitOverrunError.__init__ is proved against the Resync spec (loop invariant + variant); both scanners raise with the received bytes only.",
          "as C01"),
+ "C03": ("§4 C03", "Both blocking receive loops (_DataReceiverImpl.receive, _BufferedReceiverImpl.receive) are proved against a ghost transport stream: pending bytes == old pending ++ everything the transport returned (loop invariant), a buffered outcome is returned without reading (drain first), the EOF latch mirrors the transport's end-of-stream and is never reset, after EOF ConnectionAbortedError is raised with no transport call and only an incomplete frame pending.",
+         "abstract transport contract (recv_into returns 0 only at EOF, fails without delivering) is assumed; TCP client error mapping and the asynchronous twins are not yet under contract in this round (the async endpoints share the consumer contracts); composition over a call history is a written induction"),
  "C05": ("§4 C05", "One-shot serialize/deserialize derived from the incremental interface is proved to return exactly one packet or exactly one DeserializeError (missing / extra / invalid) for every datagram; DatagramProtocol.make_datagram / build_packet_from_datagram apply serializer and converter exactly once and raise only DatagramProtocolParseError; concrete one-shot codecs (json, struct, pickle, base64, line) delegate as specified.",
          "stdlib codecs are trusted stubs (stubs/stdlib.py); datagram endpoints/transports (one recv/send per call) are not yet under contract; OS and asyncio queue preserve datagram boundaries (assumed)"),
  "C06": ("§4 C06", "Exception flow: for every deserialize / incremental_deserialize / buffered_incremental_deserialize under contract and for the protocol and consumer layers the obligation `exits subset-of declared parse errors` is discharged path by path against the real exception class lattice; every error postcondition carries the remainder and, where stated, strict progress.",
